@@ -136,7 +136,7 @@ theorem paris_valid_partial (round32 : α → α) (fuel : Nat) (csr : List (List
     obtain ⟨rows', hj, h⟩ := bind_ok h
     simp only [pure, Except.pure, Except.ok.injEq, Option.some.injEq] at h
     subst h
-    obtain ⟨L, hp, hsz⟩ := chainLoop_pinv (n := csr.length) round32 fuel _ st _ (pinv_init csr outW inW) hres
+    obtain ⟨L, hp, hsz⟩ := chainLoop_pinv (n := csr.length) round32 _ fuel _ st _ (pinv_init csr outW inW) hres
     unfold joinComponents at hj
     split at hj
     · cases hj
